@@ -14,6 +14,7 @@ from __future__ import annotations
 
 import ast
 import math
+import re
 
 from ..cfg import CFG, node_expr, stmt_defs
 from ..facts import must_facts
@@ -27,6 +28,20 @@ SAMPLE_CHAIN_ANCHORS = frozenset({"_update_chain_stats", "_update_monitor_stats"
 PROP = "C16"
 
 
+def _order(f):
+    """node -> position in a pre-order walk of the function (source order, also for inlined code whose
+    line numbers were moved to the call site)."""
+    pos = {}
+
+    def visit(n):
+        pos[id(n)] = len(pos)
+        for ch in ast.iter_child_nodes(n):
+            visit(ch)
+
+    visit(f.node)
+    return pos
+
+
 def chain_stage_calls(f):
     out = []
     for n in ast.walk(f.node):
@@ -35,7 +50,8 @@ def chain_stage_calls(f):
             for name, a in zip(("n_iter", "adapters", "trace_funcs", "record_stats"), n.args):
                 kws[name] = a
             out.append((n, kws))
-    return sorted(out, key=lambda x: x[0].lineno)
+    pos = _order(f)
+    return sorted(out, key=lambda x: pos[id(x[0])])
 
 
 def enclosing(f, node, kinds):
@@ -310,6 +326,7 @@ def _window_total(r, k, f, loop):
             wl = w
     if wl is None:
         raise AnalysisError(f"{k.name}.stages: loop filling {lst} not found")
+    pos = _order(f)
     t = wl.test
     if not (isinstance(t, ast.Compare) and len(t.ops) == 1 and isinstance(t.ops[0], ast.Lt) and isinstance(t.left, ast.Name) and isinstance(t.comparators[0], ast.Name)):
         raise AnalysisError(f"{k.name}.stages: window loop condition outside the accepted form: {norm(t)}")
@@ -327,7 +344,7 @@ def _window_total(r, k, f, loop):
         # the overshoot test may be one disjunct of the clamp condition (when the branch is not taken
         # every disjunct is false, in particular the overshoot)
         for ct in c.test.values if isinstance(c.test, ast.BoolOp) and isinstance(c.test.op, ast.Or) else [c.test]:
-            if isinstance(ct, ast.Compare) and len(ct.ops) == 1 and isinstance(ct.ops[0], (ast.Gt, ast.GtE)) and norm(ct.comparators[0]) == total and c.lineno < apps[0].lineno:
+            if isinstance(ct, ast.Compare) and len(ct.ops) == 1 and isinstance(ct.ops[0], (ast.Gt, ast.GtE)) and norm(ct.comparators[0]) == total and pos[id(c)] < pos[id(apps[0])]:
                 ok = True
     r.inst({"stager": k.name, "window clamp": [norm(c.test) for c in clamps]})
     if not ok:
@@ -335,7 +352,8 @@ def _window_total(r, k, f, loop):
         return None, None
     _window_progress(r, k, f, wl, x, counter, total, incs[0])
     # counter starts at 0
-    init = [n for n in ast.walk(f.node) if isinstance(n, ast.Assign) and norm(n.targets[0]) == counter and n.lineno < wl.lineno]
+    init = [n for n in ast.walk(f.node) if isinstance(n, ast.Assign) and norm(n.targets[0]) == counter and pos[id(n)] < pos[id(wl)]]
+    init.sort(key=lambda n: pos[id(n)])
     if not init or norm(init[-1].value) != "0":
         r.violate(PROP, f"{k.name}.stages:window-loop:counter-init", "the window iteration counter does not start at 0", node=wl, file=f.file)
         return None, None
@@ -438,7 +456,8 @@ def _window_progress(r, k, f, wl, x, counter, total, inc):
     for n in ast.walk(f.node):
         if isinstance(n, ast.Assign) and len(n.targets) == 1 and isinstance(n.targets[0], ast.Name):
             defs.setdefault(n.targets[0].id, []).append(n.value)
-    pre = [s for s in wl.body if s.lineno < inc.lineno]
+    pos = _order(f)
+    pre = [s for s in wl.body if pos[id(s)] < pos[id(inc)]]
     # value of x at the increment: last assignment to x before it on each path
     paths = [("entry", None, None)]  # (how x was bound, binding expr, condition under which this path is taken)
     for s in pre:
@@ -617,6 +636,9 @@ def rule_r2(rep, program: Program):
         for t in conj:
             txt = norm(t)
             if txt in nonempty:
+                continue
+            # "the stage has iterations" (the zero-length skip written as an enclosing test): R3 decides that clause
+            if re.fullmatch(r"(not \w+\.n_iter == 0|\w+\.n_iter > 0|\w+\.n_iter != 0|\w+\.n_iter >= 1|\w+\.n_iter)", txt):
                 continue
             if "adapter_states" in txt or "adapters" in txt:
                 r.violate(PROP, f"sample_chains:finalize-guard:{txt[:60]}", f"stage finalisation is additionally guarded by `{txt}`, which is stronger than 'the stage produced adapter states': a stage that performed adaptation updates can end without _finalize_adapters (e.g. one transition without active adapters next to one with), so the main stage runs with an unfinalised step size / metric", node=t if hasattr(t, "lineno") else c, file=sc.file)
